@@ -46,3 +46,22 @@ for m in sorted(mods):
     items[u.name] = {"%s::%s" % (e["file"], e["item"]): e["norm_sha256_16"] for e in u.extracted}
 json.dump(items, open(os.path.join(ROOT, "specs", "item_baseline.json"), "w"), indent=1, sort_keys=True)
 print(sum(len(v) for v in items.values()), "extracted items in", len(items), "units")
+
+# every function of the source files on the pinned tree: R21 (inline a helper split off a function under contract)
+# applies only to helpers that are NOT in this index, i.e. that are new relative to the pinned tree
+import vlib.rustscan as rustscan
+from vlib.unit import REPO
+index = {}
+for f in sorted(glob.glob(os.path.join(REPO, "src", "*.rs"))):
+    rel = "src/" + os.path.basename(f)
+    sf = load_source(rel)
+    names = set()
+    for (hdr, kw, o, c) in sf.impls():
+        for mm in rustscan.find_code(sf.src, sf.mask, r"\bfn\s+(\w+)\b", o, c):
+            names.add("%s::%s" % (hdr, mm.group(1)))
+    for mm in rustscan.find_code(sf.src, sf.mask, r"\bfn\s+(\w+)\b"):
+        if sf._depth_at(mm.start()) == 0:
+            names.add("::%s" % mm.group(1))     # free function
+    index[rel] = sorted(names)
+json.dump(index, open(os.path.join(ROOT, "specs", "fn_index.json"), "w"), indent=1, sort_keys=True)
+print(sum(len(v) for v in index.values()), "functions in impl blocks indexed")
